@@ -17,13 +17,15 @@ theorem chunkE0_basic (c : L2Enc) (hrc : c.lz.rc = Enc.init) :
   exact ⟨h2, h3⟩
 
 /-- One chunk of a valid marker-free trace: `encodeChunk` succeeds and advances. -/
-theorem encodeChunk_total (d : Nat) (buf : ByteArray) (tr : Array TraceRec) (c : L2Enc) (off ti : Nat)
+theorem encodeChunkL_total (lim : ChunkLimits) (hlim : lim.Ok) (d : Nat) (buf : ByteArray) (tr : Array TraceRec) (c : L2Enc) (off ti : Nat)
     (hrc : c.lz.rc = Enc.init) (hoff : off < buf.size) (hti : ti ≤ tr.size)
     (hcase : (c.initialized = true ∧ c.lz.uncompSize = off ∧ WalkL d buf (tr.toList.drop ti) off) ∨
              (c.initialized = false ∧ off = 0 ∧ ti = 0 ∧ c.lz.uncompSize = 0 ∧ WalkL d buf tr.toList 1)) :
-    ∃ x, encodeChunk d buf 0 tr tr.size c off ti = .ok x ∧ ChunkRes d buf tr off x := by
+    ∃ x, encodeChunkL lim d buf 0 tr tr.size c off ti = .ok x ∧ ChunkRes d buf tr off x := by
   obtain ⟨e0rc, e0u⟩ := chunkE0_basic c hrc
-  rw [encodeChunk_eq]
+  have hcl : 6 ≤ lim.compLimit := hlim.2.2.1
+  have htg : 274 ≤ lim.target := hlim.1
+  rw [encodeChunkL_eq]
   rcases hcase with ⟨hini, hu, hw⟩ | ⟨hini, rfl, rfl, hu, hw⟩
   · rw [if_neg (by rw [hini]; simp), hini]
     have hlt : ti < tr.size := by
@@ -32,32 +34,32 @@ theorem encodeChunk_total (d : Nat) (buf : ByteArray) (tr : Array TraceRec) (c :
       rw [this] at hw
       have : off = buf.size := hw
       omega
-    have h0 : CJ d buf tr off ((chunkE0 c, off, ti, 0, 0, tr.size + 1) : ChunkLoopSt) :=
+    have h0 : CJ lim d buf tr off ((chunkE0 c, off, ti, 0, 0, tr.size + 1) : ChunkLoopSt) :=
       ⟨hw, by show (chunkE0 c).uncompSize = off; rw [e0u, hu], rfl, by show OutOk2 (chunkE0 c).rc; rw [e0rc]; exact outOk2_init,
-        by show T (chunkE0 c).rc ≤ 61494; rw [e0rc, T_init]; omega, by show off - off ≤ 2097152; omega, Nat.le_refl _, hti,
+        by show T (chunkE0 c).rc ≤ lim.compLimit + 55; rw [e0rc, T_init]; omega, by show off - off ≤ lim.target; omega, Nat.le_refl _, hti,
         Or.inr ⟨e0rc, rfl, hlt, Nat.succ_pos _⟩⟩
-    obtain ⟨s, hs, hJ, hadv⟩ := loop_except_total (chunkBody d buf 0 tr tr.size c.lz.props off) (CJ d buf tr off)
-      (fun s => CJ d buf tr off s ∧ off < s.2.1) (fun s => s.2.2.2.2.2)
-      (fun b hb => chunkBody_total c.lz.props d buf tr off b hb) _ _ (Nat.le_refl _) h0
+    obtain ⟨s, hs, hJ, hadv⟩ := loop_except_total (chunkBodyL lim d buf 0 tr tr.size c.lz.props off) (CJ lim d buf tr off)
+      (fun s => CJ lim d buf tr off s ∧ off < s.2.1) (fun s => s.2.2.2.2.2)
+      (fun b hb => chunkBodyL_total lim hlim c.lz.props d buf tr off b hb) _ _ (Nat.le_refl _) h0
     rw [hs]
     simp only [bind, Except.bind]
-    exact chunkTail_total d buf tr c off s hJ hadv
+    exact chunkTail_total lim hlim d buf tr c off s hJ hadv
   · rw [if_pos (by rw [hini]; simp)]
     have hrcnew : ∀ ops : List Op, ((chunkE0 c).encode ops).rc = (encOps (chunkE0 c).probs (chunkE0 c).rc ops).2 := fun _ => rfl
     have hT := (T_encOps (initOps (buf.get! (0 + 0))) (chunkE0 c).probs (chunkE0 c).rc (by rw [e0rc]; decide)).1
     rw [e0rc, T_init, initOps_length] at hT
-    have h0 : CJ d buf tr 0 (({ (chunkE0 c).encode (initOps (buf.get! (0 + 0))) with
+    have h0 : CJ lim d buf tr 0 (({ (chunkE0 c).encode (initOps (buf.get! (0 + 0))) with
           uncompSize := ((chunkE0 c).encode (initOps (buf.get! (0 + 0)))).uncompSize + 1 }, 0 + 1, 0, 1, 0, tr.size + 1) : ChunkLoopSt) :=
       ⟨hw, by show ((chunkE0 c).encode _).uncompSize + 1 = 0 + 1; rw [encode_uncomp, e0u, hu], rfl,
         by show OutOk2 ((chunkE0 c).encode _).rc; rw [hrcnew, e0rc]; exact outOk2_encOps _ _ _ outOk2_init,
-        by show T ((chunkE0 c).encode _).rc ≤ 61494; rw [hrcnew, e0rc]; omega, by show 0 + 1 - 0 ≤ 2097152; omega,
+        by show T ((chunkE0 c).encode _).rc ≤ lim.compLimit + 55; rw [hrcnew, e0rc]; omega, by show 0 + 1 - 0 ≤ lim.target; omega,
         Nat.zero_le _, Nat.zero_le _, Or.inl (by show 0 < 0 + 1; omega)⟩
-    obtain ⟨s, hs, hJ, hadv⟩ := loop_except_total (chunkBody d buf 0 tr tr.size c.lz.props 0) (CJ d buf tr 0)
-      (fun s => CJ d buf tr 0 s ∧ 0 < s.2.1) (fun s => s.2.2.2.2.2)
-      (fun b hb => chunkBody_total c.lz.props d buf tr 0 b hb) _ _ (Nat.le_refl _) h0
+    obtain ⟨s, hs, hJ, hadv⟩ := loop_except_total (chunkBodyL lim d buf 0 tr tr.size c.lz.props 0) (CJ lim d buf tr 0)
+      (fun s => CJ lim d buf tr 0 s ∧ 0 < s.2.1) (fun s => s.2.2.2.2.2)
+      (fun b hb => chunkBodyL_total lim hlim c.lz.props d buf tr 0 b hb) _ _ (Nat.le_refl _) h0
     rw [hs]
     simp only [bind, Except.bind]
-    exact chunkTail_total d buf tr c 0 s hJ hadv
+    exact chunkTail_total lim hlim d buf tr c 0 s hJ hadv
 
 /-! ## the chunk loop of `lzma2Encode` -/
 
@@ -91,11 +93,12 @@ theorem traceOk_kind {d : Nat} {buf : ByteArray} {tr : Array TraceRec} (h : Trac
     rw [getElem!_pos tr i hi]
     exact Array.getElem_mem_toList hi
 
-/-- **The executable LZMA2 chunker accepts every valid stateless trace, for every input.** -/
-theorem lzma2Encode_total (p : Props) (d : Nat) (buf : ByteArray) (tr : Array TraceRec) (h : TraceOk d buf tr) :
-    ∃ res, lzma2Encode p d buf 0 tr = .ok res := by
+/-- **The executable LZMA2 chunker accepts every valid stateless trace, for every input — for all chunk-closing limits
+    that are `ChunkLimits.Ok`.** -/
+theorem lzma2EncodeL_total (lim : ChunkLimits) (hlim : lim.Ok) (p : Props) (d : Nat) (buf : ByteArray) (tr : Array TraceRec) (h : TraceOk d buf tr) :
+    ∃ res, lzma2EncodeL lim p d buf 0 tr = .ok res := by
   have hk := traceOk_kind h
-  unfold lzma2Encode
+  unfold lzma2EncodeL
   simp only [except_throw_bind]
   refine bind_loop_ok _ _ _ (LJ d buf tr) (fun s => s.2.2.1 = buf.size) (fun s => s.2.2.2.2.2) ?_ ?_ ?_
   · intro b hb
@@ -132,7 +135,7 @@ theorem lzma2Encode_total (p : Props) (d : Nat) (buf : ByteArray) (tr : Array Tr
         · rcases ht with ⟨hz, _⟩ | ⟨_, hw⟩
           · omega
           · exact Or.inr ⟨a1, a2, a3, a4, hw⟩
-      obtain ⟨x, hx, hres⟩ := encodeChunk_total d buf tr b.1 b.2.2.1 b.2.2.2.1 hb.rc hlt hb.idx hcase
+      obtain ⟨x, hx, hres⟩ := encodeChunkL_total lim hlim d buf tr b.1 b.2.2.1 b.2.2.2.1 hb.rc hlt hb.idx hcase
       rw [hx]
       simp only [bind, Except.bind]
       have hxle := WalkL_le hres.walk
@@ -148,5 +151,12 @@ theorem lzma2Encode_total (p : Props) (d : Nat) (buf : ByteArray) (tr : Array Tr
   · intro r hr
     rw [if_neg (by rw [hr]; simp)]
     exact ⟨_, rfl⟩
+
+theorem chunkLimits_std_ok : ChunkLimits.std.Ok := by decide
+
+/-- **The executable LZMA2 chunker (limits of xz 5.8.1) accepts every valid stateless trace, for every input.** -/
+theorem lzma2Encode_total (p : Props) (d : Nat) (buf : ByteArray) (tr : Array TraceRec) (h : TraceOk d buf tr) :
+    ∃ res, lzma2Encode p d buf 0 tr = .ok res := by
+  rw [lzma2Encode_std]; exact lzma2EncodeL_total .std chunkLimits_std_ok p d buf tr h
 
 end XzVerif.LzmaExec
